@@ -51,6 +51,7 @@ type pools struct {
 	batch  []byte    // the three valid XMSS signatures stored back to back in ONE buffer (shared by all goroutines, read-only)
 	xlong  []xTriple // the same keys, a 5000-byte message each
 	x      []xTriple // valid XMSS triples from 3 different keys (3 hash functions)
+	xw     map[uint32][]xTriple // valid triples for Winternitz parameters 4 and 256 (reference-made, one per hash function)
 	xseeds [][]byte  // seeds for goroutine-private XMSS keys
 	xrefs  []*xmssref.Key
 	d      []*dilithium.Dilithium // SHARED Dilithium key objects
@@ -69,7 +70,7 @@ func getPools() *pools {
 	if pl != nil {
 		return pl
 	}
-	p := &pools{dsigs: map[[2]int][]byte{}, words: qrl.WordList[:]}
+	p := &pools{dsigs: map[[2]int][]byte{}, xw: map[uint32][]xTriple{}, words: qrl.WordList[:]}
 	for i, hf := range pu.Hashes {
 		seed := pu.DetBytes(uint64(1000+i), 48)
 		ref := xmssref.NewKey(seed, 4, pu.RefHash(hf))
@@ -84,6 +85,14 @@ func getPools() *pools {
 		p.xlong = append(p.xlong, xTriple{lmsg, ref.Sign(uint32(9+i), lmsg), nil, pk})
 		p.xseeds = append(p.xseeds, seed)
 		p.xrefs = append(p.xrefs, ref)
+		for _, w := range []uint32{4, 256} {
+			mat := pu.DetBytes(uint64(2700+i)+uint64(w), 96+32*4)
+			sibs := [][]byte{mat[96:128], mat[128:160], mat[160:192], mat[192:224]}
+			wsig, wroot := xmssref.FabricateW(xmssref.ParamsFor(int(w)), pu.RefHash(hf), 4, uint32(5+i), msg, mat[0:32], mat[32:64], mat[64:96], sibs, -1)
+			var wpk [67]byte
+			copy(wpk[:], append(append([]byte{byte(hf), 2, 0}, wroot...), mat[32:64]...))
+			p.xw[w] = append(p.xw[w], xTriple{msg, wsig, nil, wpk})
+		}
 	}
 	for i := range p.x {
 		p.batch = append(p.batch, p.x[i].sig...)
@@ -167,10 +176,10 @@ func expected(p *pools, c callSpec) string {
 		d := codecref.Desc(uint(a), uint(c.B%2), uint(4+2*(c.B%4)), 0)
 		return fmt.Sprintf("truetruetrue/0102030405060708/%x", d)
 	case "xmss.VerifyW":
-		if wChoices[c.B%len(wChoices)] == 16 {
-			return "true"
+		if w := wChoices[c.B%len(wChoices)]; w == 16 || w == 4 || w == 256 {
+			return "true" // genuine triples for the three supported parameters (reference-made for 4 and 256)
 		}
-		return aloneResult(c) // no reference model for other parameters: the definition is "what the call returns when run alone"
+		return aloneResult(c) // unsupported parameters have no reference model: the definition is "what the call returns when run alone"
 	case "xmss.Address":
 		x := codecref.XMSSAddress(p.x[a].pk[:])
 		return hex.EncodeToString(x[:])
@@ -328,6 +337,9 @@ func execCall(p *pools, c callSpec, priv *privKey) (res string) {
 		return hex.EncodeToString(s1[:])[:64] + "/" + hex.EncodeToString(s2[:])[:64]
 	case "xmss.VerifyW":
 		w := wChoices[c.B%len(wChoices)]
+		if t, ok := p.xw[w]; ok {
+			return fmt.Sprint(xmss.VerifyWithCustomWOTSParamW(t[a].msg, t[a].sig, t[a].pk, w))
+		}
 		return fmt.Sprint(xmss.VerifyWithCustomWOTSParamW(p.x[a].msg, wSig(p, a, w), p.x[a].pk, w))
 	case "xmss.helpers":
 		// exported parameter / state constructors called directly with legal but unusual arguments: only their
